@@ -119,7 +119,10 @@ def index_perm(specs, perm):
 
 def apply_on_axes(arr, mats, naxes):
     """contract matrix mats[k] (new x old) with basis axis k of arr, k < naxes"""
+    from gbv import core
     for k in range(naxes):
+        if arr.ndim <= k or arr.shape[k] != mats[k].shape[1]:
+            raise core.WrongShape(f"array of shape {arr.shape} returned where basis axis {k} must have length {mats[k].shape[1]}")
         arr = np.moveaxis(np.tensordot(mats[k], arr, (1, k)), 0, k)
     return arr
 
